@@ -184,8 +184,35 @@ class HistoryGen:
             return ["custom", [v() for _ in range(dur)]]
         return ["const", dur, v()]
 
+    def limit_pulse(self, c: dict) -> dict:
+        """A pulse sitting exactly at, one ulp inside or one ulp outside one limit of the channel
+        (amplitude, |detuning| with its 1e-6 rounding, minimum average amplitude, duration)."""
+        import math
+
+        r = self.rng
+        clock, mn = c.get("clock_period", 1), c.get("min_duration", 1)
+        mx = c.get("max_duration")
+        dur = r.choice([mn, mn + 1, max(1, mn - 1), clock * max(1, -(-mn // clock)), clock * (mn // clock + 3),
+                        clock * (mn // clock + 3) + 1] + ([mx, mx - 1, mx + 1] if mx and mx < 5000 else []))
+        dur = max(1, dur)
+        amp, det = 1.0, 0.0
+        which = r.choice(["amp", "det", "avg", "dur"])
+        if which == "amp" and c.get("max_amp") is not None:
+            m = c["max_amp"]
+            amp = r.choice([m, math.nextafter(m, 0.0), math.nextafter(m, math.inf), m * (1 - 1e-12), m * (1 + 1e-12)])
+        elif which == "det" and c.get("max_abs_detuning") is not None:
+            m = c["max_abs_detuning"]
+            off = r.choice([0.0, 0.4e-6, -0.4e-6, 0.6e-6, -0.6e-6, 1e-9, -1e-9])
+            det = r.choice([1.0, -1.0]) * (m + off)
+        elif which == "avg" and c.get("min_avg_amp"):
+            m = c["min_avg_amp"]
+            amp = r.choice([m, math.nextafter(m, 0.0), math.nextafter(m, math.inf), m / 2, 0.0])
+        return dict(amp=["const", dur, amp], det=["const", dur, det], phase=self.phase(), post=0.0)
+
     def pulse(self, c: dict) -> dict:
         r = self.rng
+        if self.profile == "limits" and r.random() < 0.6:
+            return self.limit_pulse(c)
         dur = max(1, self.duration(c))
         max_amp = c.get("max_amp") or 20.0
         max_det = c.get("max_abs_detuning") or 50.0
